@@ -163,19 +163,14 @@ Theorem C05_reported_value : forall cfg filters fm cfm rmin objs0 cns0 e j,
     end.
 Proof. exact evaluate_objective_value. Qed.
 
-(* ANY sequence of calculate() calls on one evaluator object (function-only, gradient-only -- re-using the cached
-   function result when the point is the cached one --, and combined requests, in any order, continuing after aborted
-   calls): every function result and every gradient result of answer i is that of a fresh evaluation of the point of
-   request i, and an aborted call is one whose fresh evaluation aborts.  The cache never shows. *)
+(* ANY sequence of calculate() calls on one evaluator object (function-only for a vector or a batch of vectors,
+   gradient-only -- re-using the cached function result when the point is the cached one --, and combined requests, in
+   any order, continuing after aborted calls): result number j of answer i is that of a fresh evaluation of the point it
+   is about (answer_fresh / result_fresh / result_point, Model/Filters.v), and an aborted call is one for which the
+   fresh evaluation of one of its points aborts.  The cache never shows, and a batch is the sequence of its vectors. *)
 Theorem C05_any_request_order : forall env reqs i rq,
   nth_error reqs i = Some rq ->
-  exists a, nth_error (run_direct env None reqs) i = Some a /\
-    match a with
-    | Ok rs => (forall e, In (RFun e) rs -> fresh_function env (req_point rq) = Ok e) /\
-               (forall g, In (RGrad g) rs -> fresh_gradient env (req_point rq) = Ok g)
-    | Abort c => fresh_function env (req_point rq) = Abort c
-    | Raise _ => True
-    end.
+  exists a, nth_error (run_direct env None reqs) i = Some a /\ answer_fresh env rq a.
 Proof. intros env reqs i rq H. exact (run_direct_spec env reqs None I i rq H). Qed.
 
 (* weights in force for gradients: the matrices reported with the gradient results of a point are those of the function
@@ -206,8 +201,8 @@ Proof. exact gradient_objective_value. Qed.
 
 (* an optimizer step whose optimizer issues the requests reqs: the exit code is OPTIMIZER_STEP_FINISHED exactly when
    every request delivered results that all carry values; otherwise it is TOO_FEW_REALIZATIONS, caused either by the
-   last delivered tuple (a result without values) or by the next request, whose evaluation was ended by a filter that
-   found no positive weight (nothing is delivered for it and no later request is evaluated) *)
+   last delivered tuple (a result without values) or by the next request, the evaluation of one of whose points was
+   ended by a filter that found no positive weight (nothing is delivered for it and no later request is evaluated) *)
 Theorem C05_step_exit_code : forall env allow_nan reqs d code,
   run_step env allow_nan None reqs = (d, Ok code) ->
   (code = step_finished /\ length d = length reqs /\
@@ -215,18 +210,22 @@ Theorem C05_step_exit_code : forall env allow_nan reqs d code,
   (code = too_few /\
    ((exists d' rs, d = d' ++ [rs] /\ existsb (result_stops env allow_nan) rs = true /\
                    Forall (fun rs => existsb (result_stops env allow_nan) rs = false) d') \/
-    (exists rq, nth_error reqs (length d) = Some rq /\ fresh_function env (req_point rq) = Abort too_few /\
-                Forall (fun rs => existsb (result_stops env allow_nan) rs = false) d))).
+    (exists rq k, nth_error reqs (length d) = Some rq /\ In k (req_points rq) /\
+                  fresh_function env k = Abort too_few /\
+                  Forall (fun rs => existsb (result_stops env allow_nan) rs = false) d))).
 Proof. intros env an reqs d code H. exact (run_step_exit env an reqs None d code I H). Qed.
 
-Theorem C05_step_first_evaluation_aborts : forall env allow_nan rq rest c,
-  fresh_function env (req_point rq) = Abort c -> run_step env allow_nan None (rq :: rest) = ([], Ok c).
+Theorem C05_step_first_evaluation_aborts : forall env allow_nan rq rest k c,
+  req_points rq = [k] -> fresh_function env k = Abort c -> run_step env allow_nan None (rq :: rest) = ([], Ok c).
 Proof. exact run_step_first_abort. Qed.
 
-Theorem C05_evaluator_step_exit_code : forall env k d code, run_evalstep env k = (d, Ok code) ->
-  match fresh_function env k with
-  | Ok e => d = [[RFun e]] /\ code = (if is_none (e_functions e) then too_few else evaluation_finished)
-  | Abort c => d = [] /\ code = c /\ c = too_few
+(* an evaluator step (one vector or a batch): every delivered result is fresh; the exit code is TOO_FEW_REALIZATIONS iff
+   some result lacks values or a filter ended the evaluation of one of the points, EVALUATION_STEP_FINISHED otherwise *)
+Theorem C05_evaluator_step_exit_code : forall env rq d code, run_evalstep env rq = (d, Ok code) ->
+  match snd (calc env None rq) with
+  | Ok rs => d = [rs] /\ answer_fresh env rq (Ok rs) /\
+             code = (if existsb lacks_functions rs then too_few else evaluation_finished)
+  | Abort c => d = [] /\ code = c /\ c = too_few /\ exists k, In k (req_points rq) /\ fresh_function env k = Abort too_few
   | Raise _ => False
   end.
 Proof. exact run_evalstep_exit. Qed.
@@ -287,7 +286,9 @@ Example C05_example_step :
                 s_points := [mk [[Some (Q_ 3 1)]; [Some (Q_ 2 1)]; [Some (Q_ 1 1)]]; mk [[Some (Q_ 3 1)]; [None]; [Some (Q_ 1 1)]]] |} in
   exists e, run_step env false None [ReqF 0; ReqF 1; ReqF 0] = ([[RFun e]], Ok 1%Z) /\
             e_ow e = Some [[Q_ 1 3; 0; 0]]%Q /\ fresh_function env 1 = Abort too_few /\ too_few = 1%Z /\
-            run_step env false None [ReqF 0; ReqG 0] = ([[RFun e]; [RGrad (gradient_result env e (mk [[Some (Q_ 3 1)]; [Some (Q_ 2 1)]; [Some (Q_ 1 1)]]))]], Ok step_finished).
+            run_step env false None [ReqF 0; ReqG 0] = ([[RFun e]; [RGrad (gradient_result env e (mk [[Some (Q_ 3 1)]; [Some (Q_ 2 1)]; [Some (Q_ 1 1)]]))]], Ok step_finished) /\
+            run_step env false None [ReqB [0; 0]%nat; ReqB [0; 1]%nat; ReqF 0] = ([[RFun e; RFun e]], Ok 1%Z) /\
+            run_evalstep env (ReqB [0; 1]%nat) = ([], Ok 1%Z).
 Proof. vm_compute. eexists. repeat split; reflexivity. Qed.
 
 Print Assumptions C05_window.
